@@ -464,6 +464,7 @@ type Clause struct {
 	Line int
 	File string
 	Name string // optional clause label
+	Assumed bool // `ensures assumed ...`: relied on at call sites, not proved for the body (listed as an assumption)
 }
 
 type Contract struct {
@@ -789,6 +790,10 @@ func (sp *Specs) parseSpecText(pkg, file, text string) {
 					c.Assumes = append(c.Assumes, cl)
 				case "ensures":
 					c.Ensures = append(c.Ensures, cl)
+				case "ensures-assumed":
+					cl.Kind = "ensures"
+					cl.Assumed = true
+					c.Ensures = append(c.Ensures, cl)
 				case "invariant":
 					c.LoopInv = append(c.LoopInv, cl)
 				case "backedge":
@@ -802,6 +807,11 @@ func (sp *Specs) parseSpecText(pkg, file, text string) {
 		}
 		switch first {
 		case "requires", "ensures":
+			if first == "ensures" && strings.HasPrefix(rest, "assumed ") {
+				rest = strings.TrimSpace(strings.TrimPrefix(rest, "assumed "))
+				mk("ensures-assumed", "")
+				break
+			}
 			mk(first, "")
 		case "assumes":
 			mk("assumes", "")
